@@ -167,7 +167,7 @@ def random_data(r, kws):
 
 
 def random_case(r):
-    kws = [rand_kw(r) for _ in range(r.randint(1, 5))]
+    kws = [rand_kw(r) for _ in range(r.randint(1, 5) if r.random() < 0.9 else r.choice([15, 16, 17, 40, 300]))]  # long lists too
     if r.random() < 0.4:
         kws.append(kws[0][: max(1, len(kws[0]) - 1)])  # prefix of another
     if r.random() < 0.4 and len(kws[0]) > 2:
@@ -216,6 +216,11 @@ def make_kw_dir(r, d):
         os.makedirs(os.path.join(d, sub), exist_ok=True)
         name = r.choice(["api.x", "list", "a.b.c", "vba.name", "K", "ключ", "naïve.list", "中文", ".hidden", "notes.txt", "README.md",
                          "__init__.py", "a b", "x~", "UPPER.CASE", "words.json", "#x#", "-dash", "x.bak"]) + str(i)
+        if files and r.random() < 0.3:
+            # the same file name again in another directory (two lists of one type)
+            prev = r.choice(files)[0]
+            if not os.path.exists(os.path.join(d, sub, prev)):
+                name = prev
         kws = [k for k in (rand_kw(r) for _ in range(r.randint(0, 4)))]
         kws = [k for k in kws if k.strip(b"\x0b\x0c\x1c\x1d\x1e\x85") == k and not any(c in k for c in b"\x0b\x0c\x1c\x1d\x1e\x85")]
         if kws and r.random() < 0.3:
